@@ -3,7 +3,7 @@ package main
 // C07: a sequential client while connections are lost, backends stop and come back, and the layout changes.
 //   case line:  <nnodes> <layout> # <op> ; ...
 //   case line:  <nnodes> <layout> [rep=<m>,<m>..] # ...   (a replica of each master named; configured hosts too)
-//   ops:  q <request tokens>    kill <n>    down <n>    up <n>    lay <lo> <hi> <n>    w    promote <m> (the master
+//   ops:  q <request tokens>    qx <request tokens> (the node executes it and drops the connection: lost:<executions>)    kill <n>    down <n>    up <n>    lay <lo> <hi> <n>    w    promote <m> (the master
 //         goes down for good, its replica takes over its slots)
 //   output per request:  ok:<reply>:<node>:<first|same|new>:<r|->   or   err
 //     (node that executed; whether the connection it arrived on is the one the previous request to that node used;
@@ -183,6 +183,39 @@ func runC07(line string) string {
 				for t := 0; t < 500 && servedNodes() == nodesBefore; t++ {
 					time.Sleep(2 * time.Millisecond)
 				}
+			}
+		case "qx":
+			// a request whose reply is lost: the node executes it and drops the connection instead of answering
+			pos := 0
+			v := wvOfTokens(fs[1:], &pos)
+			cl.mu.Lock()
+			for _, nd := range cl.nodes {
+				nd.log = nil
+			}
+			cl.dropNextExec = true
+			cl.mu.Unlock()
+			sc.send(v.bytes(), nil)
+			r, err := sc.recv(5 * time.Second)
+			cl.mu.Lock()
+			cl.dropNextExec = false
+			ex := 0
+			for _, nd := range cl.nodes {
+				for _, e := range nd.log {
+					if strings.HasPrefix(e.result, "exec") {
+						ex++
+					}
+				}
+			}
+			cl.mu.Unlock()
+			switch {
+			case err != nil:
+				outs = append(outs, "TIMEOUT")
+			case r.t != '-':
+				outs = append(outs, fmt.Sprintf("answered:%s:%d", r.String(), ex))
+			case ex == 0:
+				outs = append(outs, "err")
+			default:
+				outs = append(outs, fmt.Sprintf("lost:%d", ex))
 			}
 		case "kill":
 			cl.nodes[arg(1)].killConns()
@@ -393,6 +426,11 @@ func init() {
 						v = bulkArr([]byte("incr"), k)
 					default:
 						v = bulkArr([]byte("get"), k)
+					}
+					if r.chance(1, 12) {
+						ops = append(ops, "qx "+bulkArr([]byte("incr"), k).String(), "w", "q "+bulkArr([]byte("get"), k).String())
+						hist["reply lost after execution"]++
+						continue
 					}
 					ops = append(ops, "q "+v.String())
 				}
